@@ -41,6 +41,7 @@ except ImportError:
 from ..dtw import distance, distance_matrix_fast, distance_matrix, DTWSettings
 from  .medoids import KMedoids
 from ..util import SeriesContainer
+from .. import util_numpy
 from ..exceptions import NumpyException
 from .medoids import Medoids
 from ..dtw_barycenter import dba_loop
@@ -69,8 +70,10 @@ def _distance_ndim_with_params(t):
 
 def _distance_c_with_params(t):
     series, means, dists_options = t
+    series = util_numpy.verify_np_array(series)
     min_i, min_d = -1, float('inf')
     for i, mean in enumerate(means):
+        mean = util_numpy.verify_np_array(mean)
         d = dtw_cc.distance(series, mean, **dists_options)
         if d < min_d:
             min_d, min_i = d, i
@@ -79,8 +82,10 @@ def _distance_c_with_params(t):
 
 def _distance_ndim_c_with_params(t):
     series, means, dists_options = t
+    series = util_numpy.verify_np_array(series)
     min_i, min_d = -1, float('inf')
     for i, mean in enumerate(means):
+        mean = util_numpy.verify_np_array(mean)
         d = dtw_cc.distance_ndim(series, mean, **dists_options)
         if d < min_d:
             min_d, min_i = d, i
